@@ -102,6 +102,17 @@ class Index:
             raise AnalysisError(f"anchor vanished: function {rel}:{qual}")
         return n
 
+    def func_x(self, rel: str, qual: str) -> ast.FunctionDef:
+        """the anchored function with calls to local and private helpers expanded in place (canon.inline_helpers)"""
+        cache = self.__dict__.setdefault("_x_cache", {})
+        if (rel, qual) not in cache:
+            from .canon import inline_helpers
+            res = self.__dict__.get("_x_res")
+            if res is None:
+                res = self.__dict__["_x_res"] = private_helper_resolver(self)
+            cache[(rel, qual)] = inline_helpers(self.func(rel, qual), res)
+        return cache[(rel, qual)][0]
+
     def has_func(self, rel: str, qual: str) -> bool:
         m = self.modules.get(rel)
         return bool(m) and isinstance(m.defs.get(qual), (ast.FunctionDef, ast.AsyncFunctionDef))
@@ -234,6 +245,25 @@ class Check:
             for h in log:
                 self.functions.add(f"{rel}:{qual} <- helper {h} (expanded)")
             cache[key] = f
+        return cache[key]
+
+    def fn_with(self, rel, qual, also, canonical=False):
+        """like fn(), with the named *public* callees expanded as well: `also` maps the callee text as written at the call site
+        (`CVR.prep_polling_sample`, `cls.prep_polling_sample`) to (rel, qual).  For rules whose statement is about what the
+        function does, whoever's body the statements sit in."""
+        from .canon import inline_helpers, inline_aliases
+        key = (rel, qual, tuple(sorted(also.items())), canonical)
+        cache = self.__dict__.setdefault("_fnw_cache", {})
+        if key not in cache:
+            self.fn(rel, qual)
+            base = self.__dict__.get("_resolver") or private_helper_resolver(self.idx)
+            extra = {}
+            for txt, (r2, q2) in also.items():
+                if self.idx.has_func(r2, q2):
+                    self.fn(r2, q2)
+                    extra[txt.replace(" ", "")] = self.idx.func(r2, q2)
+            f, _ = inline_helpers(self.idx.func(rel, qual), lambda name: extra.get(name) or base(name))
+            cache[key] = inline_aliases(f) if canonical else f
         return cache[key]
 
     # decorators that leave "calling the name runs this body with these arguments" intact
